@@ -206,7 +206,7 @@ class BraninCurrin(ContinuousProblem):
         :rtype: np.ndarray
         """
         x_0 = X[..., 0]
-        x_1 = X[..., 1]
+        x_1 = X[..., 1].copy()  # Do not modify the caller's array.
         x_1[x_1 == 0] += 1e-9
         factor1 = 1 - np.exp(-1 / (2 * x_1))
         numer = 2300 * np.power(x_0, 3) + 1900 * np.power(x_0, 2) + 2092 * x_0 + 60
